@@ -216,7 +216,7 @@ def munch_strings(rng, T, n):
 
 # ------------------------------------------------------------------ check_language cases
 
-OPTS = [None, None, None, None, 'pl', 'de', 'de_DE', 'pol', 'de_AT.UTF-8@euro', 'sr@latin', 'pt_BR', 'en_GB', 'ca@valencia', 'deu_CH']
+OPTS = [None] * 14 + ['pl', 'de', 'de_DE', 'pol', 'de_AT.UTF-8@euro', 'sr@latin', 'pt_BR', 'en_GB', 'ca@valencia', 'deu_CH']
 
 PATHS = [
     'x.po', 'messages.po', 'pl.po', 'de.po', 'pl_PL.po', 'pol.po', 'xx.po', 'pl.UTF-8.po', 'de@euro.po', 'sr@latin.po', 'pl_XX.po', 'pt_BR.po',
@@ -284,7 +284,7 @@ def check_cases(rng, n, T, gated=False):
 
 def check_product():
     """a fixed product of input classes (every precedence combination at least once)"""
-    opts = [None, 'pl', 'de_DE']
+    opts = [None, 'de_DE']
     paths = ['x.po', 'pl.po', 'de.po', 'xx.po', 'de/LC_MESSAGES/x.mo', 'de/LC_MESSAGES/pl.po', 'translations/source/da/dictionaries/pl_PL.po',
              '/x/pt-BR/de.po', '/x/None/pl.po', 'x.pot']
     metas = [[], [''], ['pl'], ['de'], ['da'], ['pt_BR'], ['xx'], ['pol'], ['pl.UTF-8'], ['de@euro'], ['Polish'], ['Klingon'], ['pl', 'pl'], ['pl', 'de']]
